@@ -297,7 +297,25 @@ class Controller:
         self._settle()
 
     # ----- teardown
+    def drain(self) -> None:
+        """Work items still parked when the call is over (the scheduler gave up on them) finish one after the other in a
+        fixed order, so that the tail of the trace is deterministic."""
+        for _ in range(len(self.recs) + 1):
+            live = sorted((r for r in self.recs if r.entered.is_set() and not r.finished.is_set()), key=lambda r: (str(r.id), r.n))
+            if not live:
+                break
+            live[0].gate.set()
+            live[0].finished.wait(5)
+            if live[0].future is not None:
+                try:
+                    _real_wait([live[0].future], timeout=5)
+                except Exception:
+                    pass
+            self._settle()
+
     def teardown(self, wait: bool = True) -> None:
+        if wait:
+            self.drain()
         for r in self.recs:
             r.gate.set()
         if wait:
@@ -780,6 +798,7 @@ def run_controlled(op, *, prefix=(), is_async=False, batch_order=False, watchdog
                         for _ in range(6):
                             await _real_asyncio.sleep(0)
                         c._settle()
+                        c.drain()
                         for r in c.recs:
                             r.gate.set()
                         pend = [t for t in c.atasks if not t.done()]
